@@ -219,7 +219,10 @@ def gen_cases(tier: str, seed: int) -> List[Dict]:
             else:
                 slots.append(rng.choice([0, 1, -1, 2, -3, 5]))
         # representation of the constant polynomial built from the array (see _vals): tidy, raw with zero terms around, retained
-        return {"kind": "array", "shape": list(shape), "slots": slots, "repr": rng.choice([0, 0, 1, 2])}
+        sp = {"kind": "array", "shape": list(shape), "slots": slots, "repr": rng.choice([0, 0, 1, 2])}
+        if len(shape) >= 2 and rng.random() < 0.5:
+            sp["layout"] = rng.choice(["F", "strided", "readonly"])  # the memory layout of the numeric operand is not part of its value
+        return sp
 
     def add(fn, operands, par=None):
         nonlocal n
